@@ -1825,6 +1825,12 @@ class Frame:
         if name == "enumerate":
             return seq("iter", S(("ftuple", (NUM, self.iter_elems(args[0], e)))))
         if name == "zip":
+            if any(isinstance(p, tuple) and p and p[0] == "STAR" for p in pos):
+                # zip(*rows): the transposition -- tuples of unknown length whose items are the items of the rows
+                el = BOT
+                for p in pos:
+                    el |= self.iter_elems(p[1] if (isinstance(p, tuple) and p and p[0] == "STAR") else p, e)
+                return seq("iter", seq("tuple", el))
             return seq("iter", S(("ftuple", tuple(self.iter_elems(a, e) for a in args))))
         if name == "map":
             return seq("iter", unknown("map result"))
